@@ -459,42 +459,35 @@ func evalArgAll(r *core.Run, id, fnName, callee string, idx int, allowed []strin
 	if fn == nil {
 		return
 	}
-	res := r.Resolver(fn)
 	n := 0
-	for _, b := range fn.Blocks {
-		for _, ins := range b.Instrs {
-			c, ok := ins.(ssa.CallInstruction)
-			if !ok {
-				continue
+	// calls in helpers outside the vocabulary are judged too, their arguments expressed in fn's vocabulary
+	for _, dc := range deepCalls(r, fn, callee) {
+		ins := dc.Call
+		n++
+		r.Count("arg_sites_"+id, 1)
+		slot := fmt.Sprintf("%s arg%d", callee, idx)
+		if n > 1 {
+			slot += fmt.Sprintf("#%d", n)
+		}
+		key := core.Key(id, fnName, slot)
+		args := dc.ArgTerms(r)
+		if idx >= len(args) {
+			r.Undecide(id, key, r.P.Pos(ins.Pos()), "call has no argument "+fmt.Sprint(idx)+" in term form")
+			continue
+		}
+		at := args[idx]
+		ok2 := false
+		for _, g := range allowed {
+			re := guard.Glob(normT(g))
+			// a record handed back by a lookup helper that yields the zero value on failure: phi(nil|X) is X
+			if re.MatchString(at) || re.MatchString(guard.DropNilPhi(at)) {
+				ok2 = true
 			}
-			name, _ := term.CalleeName(r.P, c.Common())
-			if name != callee {
-				continue
-			}
-			n++
-			r.Count("arg_sites_"+id, 1)
-			slot := fmt.Sprintf("%s arg%d", callee, idx)
-			if n > 1 {
-				slot += fmt.Sprintf("#%d", n)
-			}
-			key := core.Key(id, fnName, slot)
-			t := callTerm(res, c)
-			if t == nil || idx >= len(t.Args) {
-				r.Undecide(id, key, r.P.Pos(ins.Pos()), "call has no argument "+fmt.Sprint(idx)+" in term form")
-				continue
-			}
-			at := normT(t.Args[idx].String())
-			ok2 := false
-			for _, g := range allowed {
-				if guard.Glob(normT(g)).MatchString(at) {
-					ok2 = true
-				}
-			}
-			if ok2 {
-				r.Discharge(id, key, r.P.Pos(ins.Pos()), what+": argument is "+at)
-			} else {
-				r.Violate(id, key, r.P.Pos(ins.Pos()), fmt.Sprintf("%s: %s passes %s to %s, allowed: %s", what, fnName, at, callee, strings.Join(allowed, " | ")))
-			}
+		}
+		if ok2 {
+			r.Discharge(id, key, r.P.Pos(ins.Pos()), what+": argument is "+at)
+		} else {
+			r.Violate(id, key, r.P.Pos(ins.Pos()), fmt.Sprintf("%s: %s passes %s to %s, allowed: %s", what, fnName, at, callee, strings.Join(allowed, " | ")))
 		}
 	}
 }
